@@ -254,7 +254,16 @@ func (c *wsClient) close() {
 	}
 }
 
-const wsTimeout = 20 * time.Second
+// How long the harness waits for something the unchanged code always sends. Once a wait has
+// expired (which already is a reported failure) later waits are cut short, so that a changed tree
+// that stops answering does not stall the whole run.
+var wsTimeout = 20 * time.Second
+var closeWait = 10 * time.Second
+
+func waitExpired() {
+	wsTimeout = 2 * time.Second
+	closeWait = 300 * time.Millisecond
+}
 
 type wsFrame struct {
 	ID      string          `json:"id"`
@@ -303,6 +312,9 @@ func (c *wsClient) read() (wsFrame, error) {
 		c.conn.SetReadDeadline(deadline)
 		_, data, err := c.conn.ReadMessage()
 		if err != nil {
+			if ne, ok := err.(interface{ Timeout() bool }); ok && ne.Timeout() {
+				waitExpired()
+			}
 			return wsFrame{}, err
 		}
 		var f wsFrame
